@@ -846,7 +846,101 @@ pub fn run(rng: &mut Rng, thorough: bool, corpus: &[String]) -> Run {
     multi_target(&mut run);
     item_tables(&mut run);
     privilege_checks(&mut run);
+    config_files(&mut run);
     run
+}
+
+/// C16, the file layer as the program reads it (`TrippyConfig::from`): a configuration file in any of the documented
+/// default locations — `trippy.toml` or `.trippy.toml` in the current directory, the home directory, the XDG
+/// configuration directory (`$XDG_CONFIG_HOME`, else `~/.config`) and its `trippy` sub-directory — is in force when
+/// no `--config-file` is given; of several the first in that order is used; `--config-file` names the file outright;
+/// a command-line value still beats the file's.  Every location is tried alone and against every later one, in a
+/// scratch directory tree with HOME / XDG_CONFIG_HOME / the current directory pointing into it.
+fn config_files(run: &mut Run) {
+    let root = std::env::temp_dir().join(format!("tvh-cfgfiles-{}", std::process::id()));
+    let (cwd, home, xdg) = (root.join("cwd"), root.join("home"), root.join("xdg"));
+    let saved_cwd = std::env::current_dir().ok();
+    let saved_env: Vec<(&str, Option<std::ffi::OsString>)> = ["HOME", "XDG_CONFIG_HOME"].iter().map(|k| (*k, std::env::var_os(k))).collect();
+    let first_ttl = |args: Args| -> Option<Result<u8, String>> {
+        guarded(|| TrippyConfig::from(args, &privilege(), PID)).ok().map(|r| r.map(|c| c.first_ttl).map_err(|e| e.to_string()))
+    };
+    for xdg_set in [true, false] {
+        // (description, directory) in the documented order of precedence
+        let xdg_dir = if xdg_set { xdg.clone() } else { home.join(".config") };
+        let xdg_name = if xdg_set { "$XDG_CONFIG_HOME" } else { "~/.config" };
+        let mut locations: Vec<(String, std::path::PathBuf)> = vec![];
+        for (dname, dir) in [("the current directory".to_string(), cwd.clone()), ("the home directory".to_string(), home.clone()),
+                             (xdg_name.to_string(), xdg_dir.clone()), (format!("{xdg_name}/trippy"), xdg_dir.join("trippy"))] {
+            for fname in ["trippy.toml", ".trippy.toml"] {
+                locations.push((format!("{fname} in {dname}"), dir.join(fname)));
+            }
+        }
+        let reset = |present: &[(usize, u8)]| -> bool {
+            let _ = std::fs::remove_dir_all(&root);
+            for d in [&cwd, &home, &xdg, &xdg_dir, &xdg_dir.join("trippy")] {
+                if std::fs::create_dir_all(d).is_err() { return false; }
+            }
+            for (i, ttl) in present {
+                if std::fs::write(&locations[*i].1, format!("[strategy]\nfirst-ttl = {ttl}\n")).is_err() { return false; }
+            }
+            std::env::set_var("HOME", &home);
+            if xdg_set { std::env::set_var("XDG_CONFIG_HOME", &xdg); } else { std::env::remove_var("XDG_CONFIG_HOME"); }
+            std::env::set_current_dir(&cwd).is_ok()
+        };
+        // nothing anywhere: the default
+        if !reset(&[]) {
+            run.count("cfgfiles:scratch-unavailable");
+            break;
+        }
+        if let Some(Ok(t)) = first_ttl(base_args()) {
+            if t != 1 { run.fail("c16-config-file-location", format!("no configuration file anywhere: first-ttl {t}, default 1")); }
+        }
+        for i in 0..locations.len() {
+            let ttl_i = 2 + i as u8;
+            // alone
+            if !reset(&[(i, ttl_i)]) { continue; }
+            run.count("cfgfiles:location");
+            match first_ttl(base_args()) {
+                Some(Ok(t)) if t == ttl_i => {}
+                other => run.fail("c16-config-file-location", format!(
+                    "the only configuration file is {} (XDG_CONFIG_HOME {}), it sets first-ttl = {ttl_i}: effective first-ttl {other:?}",
+                    locations[i].0, if xdg_set { "set" } else { "not set" })),
+            }
+            // the command line beats it, other options of the file stay (here: none) — and an explicit file beats the default one
+            let mut a = base_args();
+            a.first_ttl = Some(20);
+            match first_ttl(a) {
+                Some(Ok(20)) => {}
+                other => run.fail("c16-config-file-location", format!("--first-ttl 20 with {} setting first-ttl = {ttl_i}: effective {other:?}", locations[i].0)),
+            }
+            let explicit = root.join("explicit.toml");
+            if std::fs::write(&explicit, "[strategy]\nfirst-ttl = 30\n").is_ok() {
+                let mut a = base_args();
+                a.config_file = Some(explicit.to_string_lossy().into_owned());
+                match first_ttl(a) {
+                    Some(Ok(30)) => {}
+                    other => run.fail("c16-config-file-location", format!("--config-file (first-ttl = 30) with {} also present: effective {other:?}", locations[i].0)),
+                }
+            }
+            // against every later location: the earlier one is used
+            for j in i + 1..locations.len() {
+                let ttl_j = 2 + j as u8;
+                if !reset(&[(i, ttl_i), (j, ttl_j)]) { continue; }
+                run.count("cfgfiles:pair");
+                match first_ttl(base_args()) {
+                    Some(Ok(t)) if t == ttl_i => {}
+                    other => run.fail("c16-config-file-location", format!(
+                        "configuration files {} (first-ttl = {ttl_i}) and {} (first-ttl = {ttl_j}): effective first-ttl {other:?}, the first is documented to be used",
+                        locations[i].0, locations[j].0)),
+                }
+            }
+        }
+    }
+    if let Some(d) = saved_cwd { let _ = std::env::set_current_dir(d); }
+    for (k, v) in saved_env {
+        match v { Some(v) => std::env::set_var(k, v), None => std::env::remove_var(k) }
+    }
+    let _ = std::fs::remove_dir_all(&root);
 }
 
 /// C16 ("an unsupported combination is rejected up front"): privileges.  (i) the acceptance matrix of
